@@ -342,4 +342,436 @@ Proof.
   - intros hm o older H. discriminate H.
 Qed.
 
+(** ** a pull reports the end *)
+
+Lemma top_ops_iter ts o q : call_res e ts o = CGo (PRes q) -> q_ctx q = CTop ->
+  null_pair o RNone = true /\ (forall l c cr, o <> Loop l c cr) /\ o <> HasMore /\ o <> TryLen /\ o <> Skip /\ can_end o = true /\
+  match o with
+  | Chunk n k => q_n q = n /\ q_mode q = MChunk k
+  | BufNext k => exists bf, t_buf ts = Some bf /\ q_n q = bf_c bf /\ q_mode q = MBuf k
+  | Next v => q_mode q = MSingle v
+  | _ => False
+  end.
+Proof.
+  unfold call_res. destruct o; try discriminate.
+  - intros E C. injection E as <-. repeat split; try discriminate; reflexivity.
+  - rewrite Hk. destruct (N.eqb_spec n 0); [discriminate|]. intros E C; injection E as <-. repeat split; try discriminate; try reflexivity.
+    cbn [can_end]. destruct (N.eqb_spec n 0); [contradiction|reflexivity].
+  - destruct (c =? 0); discriminate.
+  - destruct (t_buf ts) as [bf|]; [|discriminate]. intros E C. injection E as <-.
+    repeat split; try discriminate; try reflexivity. exists bf. repeat split; reflexivity.
+  - destruct (c =? 0); [discriminate|]. destruct (c =? 1); intros E C; injection E as <-; discriminate C.
+Qed.
+
+Lemma pull_ctx c t q : IInvA e L c -> req_of (t_pc (c_pool c t)) = Some q ->
+  exists o older, pend_call t (c_trace c) = Some (o, older) /\ call_res e (c_pool c t) o = CGo (PRes q) /\
+                  split_call t (c_trace c) = Some (o, older) /\ suffix older (c_trace c) /\ o <> Skip.
+Proof.
+  intros A Hreq.
+  assert (Hni : is_idle (c_pool c t) = false) by (unfold is_idle; destruct (t_pc (c_pool c t)); try reflexivity; discriminate Hreq).
+  pose proof (a_call e L c A t) as Hc. unfold icall_ok in Hc. rewrite Hni in Hc. destruct Hc as (o & older & Hp & Hres).
+  unfold entry_of in Hres. rewrite Hreq in Hres.
+  exists o, older. split; [exact Hp|]. split; [exact Hres|]. split; [apply pend_split; exact Hp|]. split; [eapply pend_suffix; exact Hp|].
+  intros ->. discriminate Hres.
+Qed.
+
+Lemma iB_finish_end c t sh' q l :
+  IInvA e L c -> IInvB c -> In t L ->
+  req_of (t_pc (c_pool c t)) = Some q ->
+  (s_f (c_sh c) = true -> s_f sh' = true) -> (s_cur (c_sh c) = e_len e -> s_cur sh' = e_len e) ->
+  (s_f sh' = true -> s_f (c_sh c) = true \/ s_cur sh' = e_len e) ->
+  (s_f sh' = true \/ s_cur sh' = e_len e) ->
+  s_cur sh' <= s_c sh' ->
+  IInvB (finish e c t sh' (c_pool c t) l q (Ok PREnd)).
+Proof.
+  intros A I Hin Hreq Sf Sc Hf' Hstop Hcs.
+  destruct (pull_ctx c t q A Hreq) as (o & older & Hpend & Hres & Hsplit & Hsuf & Hns).
+  destruct (ipc_req e L c t q A Hreq) as [Hq Hacc].
+  pose proof (a_acc e L c A t) as Ha. unfold iacc_ok in Ha. rewrite Hpend in Ha. destruct Ha as (Ha1 & Ha2 & Ha3 & Ha4).
+  pose proof (b_nt c I t) as Hnt. unfold nt_ok in Hnt. rewrite Hpend in Hnt.
+  assert (Hfm : s_f sh' = true -> s_cur sh' = e_len e \/ has_skip (c_trace c) = true \/ has_panic (c_trace c) = true).
+  { intros Hf. destruct (Hf' Hf) as [H|H]; [|left; exact H]. destruct (b_f c I H) as [H1|H1]; [left; auto|right; exact H1]. }
+  unfold finish, deliver. destruct (q_ctx q) as [|lk crash] eqn:Ctx.
+  - destruct (top_ops_iter _ _ _ Hres Ctx) as (Hnull & _).
+    cbn [ret_ev]. apply iB_commit; try assumption.
+    + repeat constructor.
+    + intros _. exact Hstop.
+    + cbn [app]. rewrite (skip_returned_ret_other _ _ _ _ _ _ Hsplit Hns). intros H. apply Sf. apply (b_skip c I H).
+    + unfold nt_ok. cbn [app]. rewrite pend_call_self_ret. exact I0.
+    + cbn [app]. rewrite all_rets_ret, (b_evs c I), andb_true_r. apply ev6_null with o older; assumption.
+    + cbn [set_pc t_pc]. intros hm o' older' H. discriminate H.
+  - destruct (loop_ops_iter e Hk _ _ _ _ _ Hres Ctx) as (cc & -> & Hcc).
+    cbn [ret_ev]. apply iB_commit; try assumption.
+    + repeat constructor.
+    + intros _. exact Hstop.
+    + cbn [app]. rewrite (skip_returned_ret_other _ _ _ _ _ _ Hsplit Hns). intros H. apply Sf. apply (b_skip c I H).
+    + unfold nt_ok. cbn [app]. rewrite pend_call_self_ret. exact I0.
+    + cbn [app]. rewrite all_rets_ret, (b_evs c I), andb_true_r.
+      assert (Hcovr : res_cover e (RLoop (rev (t_acc (c_pool c t)))) = rev (acc_iv e (c_pool c t))).
+      { cbn [res_cover res_taken]. unfold acc_iv. apply map_rev. }
+      assert (Hnil : stopped2 older = true -> res_cover e (RLoop (rev (t_acc (c_pool c t)))) = []).
+      { intros H. destruct (Hnt H) as (_ & _ & H3). rewrite H3. reflexivity. }
+      apply ev6_intro with (Loop lk cc crash) older; try assumption.
+      * cbn [res_runs]. rewrite forallb_rev. assumption.
+      * reflexivity.
+      * rewrite Hcovr. assumption.
+      * rewrite Hcovr, all_above_rev. rewrite (cov_of_pend _ _ _ _ _ Hpend).
+        eapply all_above_mono; [apply cov_of_maxhi|assumption].
+      * rewrite Hcovr, all_above_rev. assumption.
+      * intros H. unfold delivers_nothing. rewrite Hnil by (unfold stopped2; rewrite H; reflexivity). reflexivity.
+      * intros H. unfold delivers_nothing. rewrite Hnil by (unfold stopped2; rewrite H; now rewrite orb_true_r). reflexivity.
+      * destruct (N.eqb_spec cc 0); [contradiction|]. cbn [loop_shape_ok]. rewrite forallb_rev.
+        apply (Ha2 lk cc crash eq_refl).
+    + cbn [t_pc]. intros hm o' older' H. discriminate H.
+Qed.
+
+Lemma iB_chkf c t q b :
+  IInvA e L c -> IInvB c -> In t L -> t_pc (c_pool c t) = PChkF q b -> IInvB (step e c t).
+Proof.
+  intros A I Hin Hpc. rewrite (istep_chkf e c t q b Hpc).
+  destruct (s_f (c_sh c)) eqn:Ef.
+  - apply iB_finish_end; try assumption; auto.
+    + rewrite Hpc. reflexivity.
+    + apply (b_cs c I).
+  - rewrite <- Ef. apply iB_chkf_go; assumption.
+Qed.
+
+Lemma iB_setf c t q b g :
+  IInvA e L c -> IInvB c -> In t L -> t_pc (c_pool c t) = PSetF q b g -> IInvB (step e c t).
+Proof.
+  intros A I Hin Hpc. rewrite (istep_setf e c t q b g Hpc).
+  pose proof (p_setf _ _ _ _ _ (a_prot e L c A) t q b g ltac:(unfold pcs_of; exact Hpc)) as Hex.
+  destruct (q_mode q) eqn:M.
+  - apply iB_finish_end; try assumption; cbn [with_f s_f s_cur s_c]; auto.
+    + rewrite Hpc. reflexivity.
+    + apply (b_cs c I).
+  - apply iB_setf_go; assumption.
+  - apply iB_setf_go; assumption.
+Qed.
+
+(** ** a pull returns elements *)
+
+Lemma iB_finish_got c t q b g cnt :
+  IInvA e L c -> IInvB c -> In t L -> t_pc (c_pool c t) = PPub q b g ->
+  b = s_y (c_sh c) -> cnt = N.of_nat (length g) -> 1 <= cnt -> cnt <= q_n q -> b + cnt = s_cur (c_sh c) -> b < e_len e ->
+  (cnt < q_n q -> b + cnt = e_len e) -> (forall v, q_mode q = MSingle v -> cnt = 1) ->
+  IInvB (finish e c t (with_y (c_sh c) (b + q_n q)) (c_pool c t) (LAtom t SY AAdd (q_n q) b) q
+                (Ok (PRGot b [mk_run (Some b) (val_of e b) cnt] cnt))).
+Proof.
+  intros A I Hin Hpc Hb Hcnt Hk1 Hcn Hbc Hbl Hsh Hone.
+  assert (Hreq : req_of (t_pc (c_pool c t)) = Some q) by (rewrite Hpc; reflexivity).
+  destruct (pull_ctx c t q A Hreq) as (o & older & Hpend & Hres & Hsplit & Hsuf & Hns).
+  destruct (ipc_req e L c t q A Hreq) as [Hq Hacc].
+  pose proof (a_acc e L c A t) as Ha. unfold iacc_ok in Ha. rewrite Hpend in Ha. destruct Ha as (Ha1 & Ha2 & Ha3 & Ha4).
+  pose proof (b_nt c I t) as Hnt. unfold nt_ok in Hnt. rewrite Hpend in Hnt.
+  assert (Hgne : g <> []) by (intros ->; cbn [length] in Hcnt; lia).
+  pose proof (p_cur _ _ _ _ _ (a_prot e L c A)) as Hcl.
+  assert (Hnst : stopped2 older = false).
+  { destruct (stopped2 older); [|reflexivity]. destruct (Hnt eq_refl) as (_ & H2 & _). rewrite Hpc in H2. cbn [got_of] in H2. contradiction. }
+  assert (Hns_e : end_reported older = false) by (unfold stopped2 in Hnst; destruct (end_reported older); [discriminate|reflexivity]).
+  assert (Hns_s : skip_returned older = false) by (unfold stopped2 in Hnst; destruct (skip_returned older); [rewrite orb_true_r in Hnst; discriminate|reflexivity]).
+  assert (Hheld : held e (c_pool c t) = acc_iv e (c_pool c t) ++ [(b, cnt)]) by (unfold held; rewrite Hpc, Hcnt; reflexivity).
+  destruct (top_below e L NDL c t b cnt A Hin Hheld Hbc Hk1) as [Hcb Hab].
+  assert (Hcof : iv_maxhi (cov_of e t (c_trace c)) <= b) by (pose proof (cov_of_maxhi e t (c_trace c)); lia).
+  assert (Hcold : iv_maxhi (cov e older) <= b) by (pose proof (cov_suffix_maxhi e _ _ Hsuf); lia).
+  assert (Hfm : s_f (c_sh c) = true -> s_cur (c_sh c) = e_len e \/ has_skip (c_trace c) = true \/ has_panic (c_trace c) = true) by apply (b_f c I).
+  unfold finish, deliver. destruct (q_ctx q) as [|lk crash] eqn:Ctx.
+  - (* directly *)
+    specialize (Hacc eq_refl).
+    destruct (top_ops_iter _ _ _ Hres Ctx) as (_ & Hnl & Hnh & Hnt' & _ & _ & Hop).
+    destruct (deliver_top_iter e Hk (c_pool c t) q b cnt Hbl Hk1 Hq Hone Hcn ltac:(lia) Hsh)
+      as (ts' & r & d & -> & Hp' & Ha' & Ht' & Hb' & Hbc' & Hne & Hnp & Hla & Hidx & Hchk & took & Htk & Hcov).
+    cbn [ret_ev]. apply iB_commit; try assumption; cbn [with_y s_f s_cur s_c]; auto.
+    + repeat constructor.
+    + intros Hf. destruct (Hfm Hf) as [H|[H|H]]; [left; exact H|right; left; exact H|right; right; cbn [app has_panic]; rewrite H; apply orb_true_r].
+    + cbn [app]. rewrite (end_reported_ret _ _ _ _ _ _ Hsplit), Hne. cbn [andb orb]. apply (b_end c I).
+    + cbn [app]. rewrite (skip_returned_ret_other _ _ _ _ _ _ Hsplit Hns). apply (b_skip c I).
+    + unfold nt_ok. cbn [app]. rewrite pend_call_self_ret. exact I0.
+    + cbn [app]. rewrite all_rets_ret, (b_evs c I), andb_true_r.
+      apply ev6_intro with o older; try assumption.
+      * destruct o; try reflexivity.
+        -- destruct Hop as [Hn Hm]. rewrite <- Hn. rewrite (Hchk k (or_introl Hm)). apply orb_true_r.
+        -- destruct Hop as (bf & Hbf & Hn & Hm).
+           rewrite <- (buf_size_pend _ _ _ _ Hpend) by discriminate.
+           rewrite (a_buf e L c A t bf Hbf). rewrite <- Hn. apply (Hchk k (or_intror Hm)).
+      * rewrite Hcov. apply increasing_split. assumption.
+      * rewrite Hcov. apply all_above_split. lia.
+      * rewrite Hcov. apply all_above_split. lia.
+      * rewrite Hns_e. discriminate.
+      * rewrite Hns_s. discriminate.
+      * destruct o; try reflexivity. contradiction (Hnl l c0 crash); reflexivity.
+    + pose proof (b_cs c I). lia.
+    + rewrite Hp'. intros hm o' older' H. discriminate H.
+  - (* inside a loop *)
+    destruct (loop_ops_iter e Hk _ _ _ _ _ Hres Ctx) as (cc & -> & Hcc).
+    unfold deliver_loop.
+    destruct (loop_invoke_cases e lk crash (total_cnt (t_acc (c_pool c t))) b cnt Hbl Hk1) as (inv & pan & -> & Hi1 & Hi2 & Hinv).
+    destruct pan as [used|].
+    + destruct Hinv as (Hu1 & Hu2 & Hinv).
+      assert (Hcovr : res_cover e (RPanic PkUser (rev (rev inv ++ t_acc (c_pool c t)))) = rev (acc_iv e (c_pool c t)) ++ [(b, used)]).
+      { cbn [res_cover res_taken]. rewrite rev_app_distr, rev_involutive, map_app, Hinv. unfold acc_iv. rewrite map_rev. reflexivity. }
+      cbn [ret_ev]. apply iB_commit; try assumption; cbn [with_y s_f s_cur s_c]; auto.
+      * repeat constructor.
+      * cbn [app]. rewrite (end_reported_ret _ _ _ _ _ _ Hsplit). cbn [is_end andb orb]. apply (b_end c I).
+      * cbn [app]. rewrite (skip_returned_ret_other _ _ _ _ _ _ Hsplit Hns). apply (b_skip c I).
+      * unfold nt_ok. cbn [app]. rewrite pend_call_self_ret. exact I0.
+      * cbn [app]. rewrite all_rets_ret, (b_evs c I), andb_true_r.
+        apply ev6_intro with (Loop lk cc crash) older; try assumption.
+        -- cbn [res_runs]. rewrite forallb_rev, forallb_app, forallb_rev, Hi1, Ha1. reflexivity.
+        -- reflexivity.
+        -- rewrite Hcovr. apply increasing_snoc; [assumption|]. cbn [fst].
+           rewrite (iv_maxhi_perm _ _ (Permutation_sym (Permutation_rev _))). lia.
+        -- rewrite Hcovr, all_above_app, all_above_rev. rewrite (cov_of_pend _ _ _ _ _ Hpend).
+           apply andb_true_iff. split.
+           ++ eapply all_above_mono; [apply cov_of_maxhi|assumption].
+           ++ apply all_above_forall. intros a [<-|[]]. right. cbn [fst].
+              pose proof (cov_of_maxhi e t older). lia.
+        -- rewrite Hcovr, all_above_app, all_above_rev, Ha4. cbn [andb].
+           apply all_above_forall. intros a [<-|[]]. right. cbn [fst]. lia.
+        -- rewrite Hns_e. discriminate.
+        -- rewrite Hns_s. discriminate.
+        -- destruct (N.eqb_spec cc 0); [contradiction|].
+           change (forallb (shape_ok lk) (rev (rev inv ++ t_acc (c_pool c t))) = true).
+           rewrite forallb_rev, forallb_app, forallb_rev, Hi2. cbn [andb]. apply (Ha2 lk cc crash eq_refl).
+      * pose proof (b_cs c I). lia.
+      * cbn [t_pc]. intros hm o' older' H. discriminate H.
+    + (* the loop goes on *)
+      cbn [ret_ev]. apply iB_commit; try assumption; cbn [with_y s_f s_cur s_c app]; auto.
+      all: first [ apply (b_f c I) | apply (b_end c I) | apply (b_skip c I) | apply (b_evs c I)
+                 | (pose proof (b_cs c I); lia)
+                 | (unfold nt_ok; rewrite Hpend, Hnst; discriminate)
+                 | (cbn [t_pc]; intros hm o' older' H; discriminate H)
+                 | constructor ].
+Qed.
+
+Lemma iB_pub c t q b g :
+  IInvA e L c -> IInvB c -> In t L -> t_pc (c_pool c t) = PPub q b g ->
+  s_y (c_sh c) + pub_incr q < W -> IInvB (step e c t).
+Proof.
+  intros A I Hin Hpc Hw.
+  destruct (pub_eq e Hk L c t q b g A Hpc Hw) as (Hb & Hq & [(Hg & Hex & ->)|(cnt & Hcnt & Hk1 & Hcn & Hbc & Hbl & Hsh & Hone & ->)]).
+  - apply iB_finish_end; try assumption; cbn [with_y s_f s_cur s_c]; auto.
+    + rewrite Hpc. reflexivity.
+    + apply (b_cs c I).
+  - apply iB_finish_got with g; assumption.
+Qed.
+
+(** ** unwinding from a panic of the wrapped iterator *)
+
+Lemma iB_unw_gen c t q b g ts' d l :
+  IInvA e L c -> IInvB c -> In t L -> t_pc (c_pool c t) = PUnw q b g -> t_pc ts' = PIdle ->
+  IInvB (commit c t (with_f (c_sh c) true) ts' l [ERet t (RPanic PkSource (rev (t_acc (c_pool c t)))) d]).
+Proof.
+  intros A I Hin Hpc Hp'.
+  assert (Hreq : req_of (t_pc (c_pool c t)) = Some q) by (rewrite Hpc; reflexivity).
+  destruct (pull_ctx c t q A Hreq) as (o & older & Hpend & Hres & Hsplit & Hsuf & Hns).
+  destruct (ipc_req e L c t q A Hreq) as [Hq Hacc].
+  pose proof (a_acc e L c A t) as Ha. unfold iacc_ok in Ha. rewrite Hpend in Ha. destruct Ha as (Ha1 & Ha2 & Ha3 & Ha4).
+  pose proof (b_nt c I t) as Hnt. unfold nt_ok in Hnt. rewrite Hpend in Hnt.
+  apply iB_commit; try assumption; cbn [with_f s_f s_cur s_c]; auto.
+  - repeat constructor.
+  - unfold nt_ok. cbn [app]. rewrite pend_call_self_ret. exact I0.
+  - cbn [app]. rewrite all_rets_ret, (b_evs c I), andb_true_r.
+    assert (Hcovr : res_cover e (RPanic PkSource (rev (t_acc (c_pool c t)))) = rev (acc_iv e (c_pool c t))).
+    { cbn [res_cover res_taken]. unfold acc_iv. apply map_rev. }
+    assert (Hnil : stopped2 older = true -> res_cover e (RPanic PkSource (rev (t_acc (c_pool c t)))) = []).
+    { intros H. destruct (Hnt H) as (_ & _ & H3). rewrite H3. reflexivity. }
+    apply ev6_intro with o older; try assumption.
+    + cbn [res_runs]. rewrite forallb_rev. assumption.
+    + destruct o; try reflexivity; cbn [chunk_ok]; rewrite ?orb_true_r; try reflexivity. destruct (buf_size t older); reflexivity.
+    + rewrite Hcovr. assumption.
+    + rewrite Hcovr, all_above_rev. rewrite (cov_of_pend _ _ _ _ _ Hpend).
+      eapply all_above_mono; [apply cov_of_maxhi|assumption].
+    + rewrite Hcovr, all_above_rev. assumption.
+    + intros H. unfold delivers_nothing. rewrite Hnil by (unfold stopped2; rewrite H; reflexivity).
+      cbn [is_end is_panic orb iv_total N.eqb no_positive andb]. destruct (can_end o); reflexivity.
+    + intros H. unfold delivers_nothing. rewrite Hnil by (unfold stopped2; rewrite H; now rewrite orb_true_r).
+      cbn [is_end is_panic orb iv_total N.eqb andb]. destruct (can_end o); destruct o; try reflexivity; discriminate Hres.
+    + destruct o; try reflexivity. unfold call_res in Hres. destruct (N.eqb_spec c0 0); [discriminate Hres|].
+      change (forallb (shape_ok l0) (rev (t_acc (c_pool c t))) = true). rewrite forallb_rev. apply (Ha2 l0 c0 crash eq_refl).
+  - apply (b_cs c I).
+  - rewrite Hp'. intros hm o' older' H. discriminate H.
+Qed.
+
+Lemma iB_unw c t q b g :
+  IInvA e L c -> IInvB c -> In t L -> t_pc (c_pool c t) = PUnw q b g -> IInvB (step e c t).
+Proof.
+  intros A I Hin Hpc. unfold step. rewrite Hpc.
+  destruct (q_ctx q); [|apply iB_unw_gen with q b g; auto].
+  destruct (q_mode q); try (apply iB_unw_gen with q b g; auto).
+  rewrite Hk. destruct (t_buf (c_pool c t)) as [bf|]; [|apply iB_unw_gen with q b g; auto].
+  destruct (write_slots (bf_slots bf) (rev g)) as [sl stale]. apply iB_unw_gen with q b g; auto.
+Qed.
+
+(** ** skip_to_end and the length queries *)
+
+Lemma call_ctx c t : IInvA e L c -> is_idle (c_pool c t) = false ->
+  exists o older, pend_call t (c_trace c) = Some (o, older) /\ call_res e (c_pool c t) o = CGo (entry_of (t_pc (c_pool c t))) /\
+                  split_call t (c_trace c) = Some (o, older) /\ suffix older (c_trace c).
+Proof.
+  intros A Hni. pose proof (a_call e L c A t) as Hc. unfold icall_ok in Hc. rewrite Hni in Hc. destruct Hc as (o & older & Hp & Hres).
+  exists o, older. split; [exact Hp|]. split; [exact Hres|]. split; [apply pend_split; exact Hp|eapply pend_suffix; exact Hp].
+Qed.
+
+Lemma call_res_skip_iter ts o : call_res e ts o = CGo PSkip -> o = Skip.
+Proof.
+  unfold call_res. destruct o; try discriminate; try reflexivity.
+  - rewrite Hk. destruct (n =? 0); discriminate.
+  - destruct (c =? 0); discriminate.
+  - destruct (t_buf ts); discriminate.
+  - destruct (c =? 0); [discriminate|]. destruct (c =? 1); discriminate.
+Qed.
+
+Lemma call_res_len_iter ts o hm : call_res e ts o = CGo (PLen hm) ->
+  (o = TryLen /\ hm = false) \/ (o = HasMore /\ hm = true).
+Proof.
+  unfold call_res. destruct o; try discriminate.
+  - rewrite Hk. destruct (n =? 0); discriminate.
+  - destruct (c =? 0); discriminate.
+  - destruct (t_buf ts); discriminate.
+  - destruct (c =? 0); [discriminate|]. destruct (c =? 1); discriminate.
+  - intros E. injection E as <-. auto.
+  - intros E. injection E as <-. auto.
+Qed.
+
+Lemma iB_skip c t : IInvA e L c -> IInvB c -> In t L -> t_pc (c_pool c t) = PSkip -> IInvB (step e c t).
+Proof.
+  intros A I Hin Hpc. rewrite (istep_skip e Hk c t Hpc).
+  assert (Hni : is_idle (c_pool c t) = false) by (unfold is_idle; rewrite Hpc; reflexivity).
+  destruct (call_ctx c t A Hni) as (o & older & Hpend & Hres & Hsplit & Hsuf). rewrite Hpc in Hres. cbn [entry_of req_of] in Hres.
+  apply call_res_skip_iter in Hres. subst o.
+  apply iB_commit; try assumption; cbn [with_f s_f s_cur s_c]; auto.
+  - repeat constructor.
+  - intros _. right. left. cbn [app has_skip]. apply (has_skip_pend _ _ _ Hpend).
+  - unfold nt_ok. cbn [app]. rewrite pend_call_self_ret. exact I0.
+  - cbn [app]. rewrite all_rets_ret, (b_evs c I), andb_true_r. apply ev6_null with Skip older; [assumption|reflexivity].
+  - apply (b_cs c I).
+  - cbn [set_pc t_pc]. intros hm o' older' H. discriminate H.
+Qed.
+
+(** a length answer [a] (zero, or unknown) returned by a query *)
+Lemma iB_len_ret c t hm (a : option N) l :
+  IInvA e L c -> IInvB c -> In t L ->
+  is_idle (c_pool c t) = false -> entry_of (t_pc (c_pool c t)) = PLen hm ->
+  (forall n, a = Some n -> n = 0 \/ ((forall o older, pend_call t (c_trace c) = Some (o, older) ->
+                                         skip_returned older = false /\ (end_reported older = true -> s_cur (c_sh c) = e_len e)) /\
+                                      (s_cur (c_sh c) = e_len e -> n = 0))) ->
+  (a = None -> s_f (c_sh c) = false) ->
+  IInvB (commit c t (c_sh c) (set_pc (c_pool c t) PIdle) l [ERet t (len_res hm a) []]).
+Proof.
+  intros A I Hin Hni Hent Hsome Hnone.
+  destruct (call_ctx c t A Hni) as (o & older & Hpend & Hres & Hsplit & Hsuf). rewrite Hent in Hres.
+  assert (Hos : o <> Skip) by (intros ->; discriminate Hres).
+  apply iB_commit; try assumption; auto.
+  - repeat constructor.
+  - cbn [app]. intros Hf. destruct (b_f c I Hf) as [H|[H|H]]; [left; exact H|right; left; exact H|right; right].
+    cbn [has_panic]. rewrite H. apply orb_true_r.
+  - cbn [app]. rewrite (end_reported_ret _ _ _ _ _ _ Hsplit).
+    assert (is_end (len_res hm a) = false) as -> by (destruct hm, a as [[|]|]; reflexivity). cbn [andb orb]. apply (b_end c I).
+  - cbn [app]. rewrite (skip_returned_ret_other _ _ _ _ _ _ Hsplit Hos). apply (b_skip c I).
+  - unfold nt_ok. cbn [app]. rewrite pend_call_self_ret. exact I0.
+  - cbn [app]. rewrite all_rets_ret, (b_evs c I), andb_true_r.
+    assert (Hcov0 : res_cover e (len_res hm a) = []) by (destruct hm; reflexivity).
+    assert (Hruns0 : res_runs (len_res hm a) = []) by (destruct hm; reflexivity).
+    assert (Hstop : stopped2 older = true -> s_f (c_sh c) = true \/ s_cur (c_sh c) = e_len e) by (apply stop_state; assumption).
+    apply ev6_intro with o older; try assumption.
+    + rewrite Hruns0. reflexivity.
+    + destruct (call_res_len_iter _ _ _ Hres) as [[-> _]|[-> _]]; reflexivity.
+    + rewrite Hcov0. reflexivity.
+    + rewrite Hcov0. reflexivity.
+    + rewrite Hcov0. reflexivity.
+    + intros H. unfold delivers_nothing. rewrite Hcov0. cbn [iv_total N.eqb andb].
+      assert (Hnp : no_positive (len_res hm a) = true).
+      { destruct a as [n|]; [|destruct hm; reflexivity].
+        destruct (Hsome n eq_refl) as [->|(Hsk & Hz)]; [destruct hm; reflexivity|].
+        destruct (Hsk _ _ Hpend) as [_ Hc]. rewrite (Hz (Hc H)). destruct hm; reflexivity. }
+      rewrite Hnp. destruct (call_res_len_iter _ _ _ Hres) as [[-> _]|[-> _]]; reflexivity.
+    + intros H. unfold delivers_nothing. rewrite Hcov0. cbn [iv_total N.eqb andb].
+      assert (Hf : s_f (c_sh c) = true) by (apply (b_skip c I); eapply skip_returned_suffix; eassumption).
+      assert (a = Some 0) as ->.
+      { destruct a as [n|]; [|rewrite (Hnone eq_refl) in Hf; discriminate].
+        destruct (Hsome n eq_refl) as [->|(Hsk & _)]; [reflexivity|]. destruct (Hsk _ _ Hpend) as [Hs0 _]. rewrite Hs0 in H. discriminate. }
+      destruct (call_res_len_iter _ _ _ Hres) as [[-> ->]|[-> ->]]; reflexivity.
+    + destruct (call_res_len_iter _ _ _ Hres) as [[-> _]|[-> _]]; reflexivity.
+  - apply (b_cs c I).
+  - cbn [set_pc t_pc]. intros hm' o' older' H. discriminate H.
+Qed.
+
+Lemma iB_len c t hm : IInvA e L c -> IInvB c -> In t L -> t_pc (c_pool c t) = PLen hm -> IInvB (step e c t).
+Proof.
+  intros A I Hin Hpc. rewrite (istep_len e Hk c t hm Hpc).
+  assert (Hni : is_idle (c_pool c t) = false) by (unfold is_idle; rewrite Hpc; reflexivity).
+  assert (Hent : entry_of (t_pc (c_pool c t)) = PLen hm) by (rewrite Hpc; reflexivity).
+  destruct (s_f (c_sh c)) eqn:Ef.
+  - apply (iB_len_ret c t hm (Some 0)); try assumption.
+    + intros n E. injection E as <-. left. reflexivity.
+    + discriminate.
+  - destruct (e_hint e).
+    + (* exact hint: the reserved counter is read next *)
+      apply iB_silent; try assumption; auto.
+      * apply (b_cs c I).
+      * apply nt_keep; try assumption; auto; rewrite Hpc; cbn [before_gate]; auto.
+      * intros hm' o older _ Hp.
+        destruct (skip_returned older) eqn:Es; [|reflexivity].
+        pose proof (pend_suffix _ _ _ _ Hp) as Hsuf.
+        pose proof (b_skip c I (skip_returned_suffix _ _ Hsuf Es)). congruence.
+    + apply (iB_len_ret c t hm None); try assumption; [discriminate|auto].
+    + apply (iB_len_ret c t hm None); try assumption; [discriminate|auto].
+Qed.
+
+Lemma iB_len2 c t hm : IInvA e L c -> IInvB c -> In t L -> t_pc (c_pool c t) = PLen2 hm -> IInvB (step e c t).
+Proof.
+  intros A I Hin Hpc. rewrite (istep_len2 e c t hm Hpc).
+  assert (Hni : is_idle (c_pool c t) = false) by (unfold is_idle; rewrite Hpc; reflexivity).
+  assert (Hent : entry_of (t_pc (c_pool c t)) = PLen hm) by (rewrite Hpc; reflexivity).
+  apply (iB_len_ret c t hm (Some (k_len e (s_c (c_sh c))))); try assumption.
+  - intros n E. injection E as <-. right. split.
+    + intros o older Hp. split; [apply (b_len2 c I t hm o older Hpc Hp)|].
+      intros He'. pose proof (b_nt c I t) as Hnt. unfold nt_ok in Hnt. rewrite Hp in Hnt.
+      destruct (Hnt ltac:(unfold stopped2; rewrite He'; reflexivity)) as (Hn1 & _ & _).
+      unfold NT in Hn1. rewrite Hpc in Hn1. cbn [before_gate] in Hn1. destruct Hn1 as [H|[_ H]]; [exact H|discriminate].
+    + intros Hc. pose proof (b_cs c I). unfold k_len. destruct (N.ltb_spec (s_c (c_sh c)) (e_len e)); [lia|reflexivity].
+  - discriminate.
+Qed.
+
+(** ** every step preserves the invariant *)
+
+Lemma iB_step c t : IInvA e L c -> IInvB c -> In t L -> istep_nowrap c t -> IInvB (step e c t).
+Proof.
+  intros A I Hin Hw. unfold istep_nowrap in Hw.
+  destruct (t_pc (c_pool c t)) as [|q|q b|q b|q b got|q b got|q b got|q b got| |hm|hm] eqn:Hpc.
+  - destruct (t_todo (c_pool c t)) as [|o rest] eqn:Htodo.
+    + rewrite (istep_idle_nil e) by assumption. exact I.
+    + rewrite (istep_idle_call e c t o rest) by assumption. apply iB_call; assumption.
+  - apply iB_res with q; assumption.
+  - apply iB_chkf with q b; assumption.
+  - apply iB_ldy with q b; assumption.
+  - apply iB_src with q b got; assumption.
+  - apply iB_setf with q b got; assumption.
+  - apply iB_pub with q b got; assumption.
+  - apply iB_unw with q b got; assumption.
+  - apply iB_skip; assumption.
+  - apply iB_len with hm; assumption.
+  - apply iB_len2 with hm; assumption.
+Qed.
+
+Lemma iB_init progs : IInvB (init progs).
+Proof.
+  split; cbn [init c_pool c_trace c_sh s_f s_cur s_c]; try discriminate; try reflexivity; try lia.
+Qed.
+
+Theorem iAB_exec progs sched :
+  (forall t, Forall wf_op (progs t)) ->
+  Forall (fun t => In t L) sched ->
+  nowrap (c_labels (exec e (init progs) sched)) ->
+  IInvA e L (exec e (init progs) sched) /\ IInvB (exec e (init progs) sched).
+Proof.
+  intros Hp. induction sched as [|t sched IH] using rev_ind; intros Hs Hw.
+  - split; [apply iA_init; assumption|apply iB_init].
+  - rewrite exec_snoc in *. apply Forall_app in Hs. destruct Hs as [Hs Ht]. inversion Ht as [|? ? Hin _]; subst.
+    destruct (IH Hs (step_labels_suffix e _ _ Hw)) as [A B].
+    pose proof (istep_labels e Hk _ _ Hw) as Hn.
+    split; [apply iA_step; assumption|apply iB_step; assumption].
+Qed.
+
 End IterB.
